@@ -203,7 +203,7 @@ UNIT = {
                  "rewrites": [
                      # X12: `let &PAT = &EXPR;` -> `let PAT = EXPR;` (Verus: "ref patterns"); the pattern's `&` cancels the borrow
                      ("X12", r"let &\(test, consequent, alternative\) = &cond\.as_ref\(\);", "let (test, consequent, alternative) = cond.as_ref();"),
-                     ("X6", r"located_error!\(\s*LogicError::TypeMisMatch\(other\.to_string\(\), Type::Procedure\),\s*([\w\.]+)\s*\)", r"type_mismatch_at(\1)", 0, "S"),
+                     ("X6", r"located_error!\(\s*LogicError::TypeMisMatch\(\w+\.to_string\(\), Type::Procedure\),\s*([\w\.]+)\s*\)", r"type_mismatch_at(\1)", 0, "S"),
                      ("X6", r"located_error!\(\s*LogicError::UnexpectedExpression\(expression\.clone\(\)\),\s*([\w\.]+)\s*\)", r"unexpected_expression_at(\1)", 0, "S"),
                      ("X6", r"located_error!\(\s*LogicError::UnboundedSymbol\(ident\.clone\(\)\),\s*([\w\.]+)\s*\)", r"unbound_symbol_at(\1)", 0, "S"),
                      ("X3s", r"arguments\s*\.iter\(\)\s*\.map\(\|(\w+)\| Self::eval_expression\(\1, env\)\)\s*\.collect\(\)",
